@@ -29,6 +29,9 @@ function FM(s, p, lo, hi, def)
   if def then emit(pcall(find, s, p)) emit(pcall(match, s, p)) end
   for i = lo, hi do emit(pcall(find, s, p, i)) emit(pcall(match, s, p, i)) end
 end
+function FM1(s, p, init)
+  emit(pcall(find, s, p, init)) emit(pcall(match, s, p, init))
+end
 function GM(s, p, init)
   local ok, it
   if init == nil then ok, it = pcall(gmatch, s, p) else ok, it = pcall(gmatch, s, p, init) end
@@ -91,6 +94,7 @@ type drv struct {
 	c          *vp.Child
 	sess       *gl.Sess
 	fm, gm, gs rt.Value
+	fm1        rt.Value
 	calls      int
 	seen       map[string]bool
 	perKey     map[string]int
@@ -127,6 +131,7 @@ func (d *drv) reset() {
 	}
 	g := d.sess.R.GlobalEnv()
 	d.fm, d.gm, d.gs = g.Get(rt.StringValue("FM")), g.Get(rt.StringValue("GM")), g.Get(rt.StringValue("GS"))
+	d.fm1 = g.Get(rt.StringValue("FM1"))
 }
 
 func (d *drv) call(which byte, args ...rt.Value) *gl.Outcome {
@@ -134,7 +139,7 @@ func (d *drv) call(which byte, args ...rt.Value) *gl.Outcome {
 	if d.calls%50000 == 0 {
 		d.reset()
 	}
-	f := map[byte]rt.Value{'f': d.fm, 'm': d.gm, 's': d.gs}[which] // after a possible reset
+	f := map[byte]rt.Value{'f': d.fm, 'm': d.gm, 's': d.gs, '1': d.fm1}[which] // after a possible reset
 	d.sess.Trace = d.sess.Trace[:0]
 	d.sess.TraceV = d.sess.TraceV[:0]
 	d.sess.Out.Reset()
@@ -302,7 +307,13 @@ func runGo(pc pclass, lc lcase) verdict {
 }
 
 func (d *drv) runFM(pc pclass, lc lcase) verdict {
-	out := d.call('f', sv(lc.s), sv(lc.p), iv(lc.lo), iv(lc.hi), rt.BoolValue(lc.def))
+	var out *gl.Outcome
+	if lc.lo == lc.hi && !lc.def {
+		// a single init value (possibly at the ends of the integer range): no loop in the driver
+		out = d.call('1', sv(lc.s), sv(lc.p), iv(lc.lo))
+	} else {
+		out = d.call('f', sv(lc.s), sv(lc.p), iv(lc.lo), iv(lc.hi), rt.BoolValue(lc.def))
+	}
 	if v := d.outcomeProblem(out, lc); v != nil {
 		return *v
 	}
@@ -318,6 +329,9 @@ func (d *drv) runFM(pc pclass, lc lcase) verdict {
 	}
 	for i := lc.lo; i <= lc.hi; i++ {
 		exps = append(exps, exp{init: i})
+		if i == lc.hi {
+			break // hi may be the largest integer
+		}
 	}
 	if len(out.Trace) != 2*len(exps) {
 		return verdict{kind: "shape", label: "fm", detail: fmt.Sprintf("%s: %d events, expected %d", lc.String(), len(out.Trace), 2*len(exps)), lc: lc}
@@ -503,7 +517,7 @@ func (d *drv) minimise(v verdict) verdict {
 	best := v
 	runs := 0
 	same := func(lc lcase) bool {
-		if runs > 4000 {
+		if runs > 1500 {
 			return false
 		}
 		runs++
@@ -600,7 +614,7 @@ func (d *drv) minimise(v verdict) verdict {
 		}
 		return false
 	}
-	for runs <= 4000 && each(best.lc, same) {
+	for runs <= 1500 && each(best.lc, same) {
 	}
 	return best
 }
@@ -613,7 +627,7 @@ func (d *drv) report(v verdict) {
 	key := v.kind + "|" + v.label
 	d.c.Feature("violation:"+key, 1)
 	// keep the cost of minimising bounded when one defect fires very often
-	if n := d.c.NViolations(); n >= 40 || d.perKey[key] >= 3 {
+	if n := d.c.NViolations(); n >= 40 || d.perKey[key] >= 2 {
 		return
 	}
 	pre := key + "|" + v.lc.String()
